@@ -10,7 +10,7 @@
    do_dynamic_age runs on the fuel S (size of the list) the schema states, the same bound the literal
    machine uses; that it suffices is part of dl_no_UB_on_any_history. *)
 Require Import Capp.Base Capp.Spec Capp.Rr Capp.Lfuda Capp.LfudaFacts Capp.ListCacheFacts Capp.RrLit Capp.LruLit Capp.LfudaLit Capp.LfudaLitFacts
-               Capp.GenPrims CappGen.GenLfuda.
+               Capp.GenPrims Capp.Conc Capp.GenConc CappGen.GenLfuda.
 From Coq Require Import Strings.String Lia ZArith.
 
 Section LfudaBridge.
@@ -481,7 +481,26 @@ Section LfudaBridge.
                  = Ok (l', snd (run lf_step (lf_init cap tick rnum rk) h)) /\
                  dl_rep l' (fst (run lf_step (lf_init cap tick rnum rk) h)).
   Proof. intros cap tick rnum rk h Hc Ht M. rewrite g_init_ok. apply generated_lfuda_no_UB_on_any_history; auto. Qed.
+
+  (* ---- C06 on the translated program: in every execution of the lock-level machine (Conc.v, Section Lin: invoke,
+     acquire, body = one call of the generated program, release, return) every call returns what the mid-level
+     model returns when it runs the calls in the order of their critical sections — provided the clock readings
+     are monotone in that order, which is the case when a call reads the clock inside its critical section; where
+     the source reads it before taking the lock, this is an assumption about the schedule (the scheduler check of
+     C06 examines such schedules on the real code) ---- *)
+  Theorem generated_lfuda_lock_level_executions_return_model_results : forall cap tick rnum rk ex st,
+      1 <= cap -> (0 <= tick)%Z ->
+      mexec _ _ _ (tstep g_step RUnsupported) (minit _ _ _ (g_init cap tick rnum rk)) ex st ->
+      let l := lin _ _ _ (tstep g_step RUnsupported) (g_init cap tick rnum rk) (fun _ => None) ex in
+      (fun h => mono_from 0 h) (map (fun c => snd (fst c)) l) ->
+      map snd l = (fun h => snd (run lf_step (lf_init cap tick rnum rk) h)) (map (fun c => snd (fst c)) l).
+  Proof.
+    intros cap tick rnum rk ex st Hc Ht Hex.
+    refine (executions_have_the_results_of_the_model g_step RUnsupported (fun h => mono_from 0 h) (fun h => snd (run lf_step (lf_init cap tick rnum rk) h)) (g_init cap tick rnum rk) _ ex st Hex).
+    intros h HP. destruct (generated_lfuda_constructed_no_UB_on_any_history cap tick rnum rk h Hc Ht HP) as (l' & D & _). eauto.
+  Qed.
 End LfudaBridge.
 
 Print Assumptions generated_lfuda_no_UB_on_any_history.
 Print Assumptions generated_lfuda_constructed_no_UB_on_any_history.
+Print Assumptions generated_lfuda_lock_level_executions_return_model_results.
